@@ -105,7 +105,7 @@ theorem allParentsVisited_depAll (visited ps : List Nat) :
 
 theorem bfsChildren_depAll (g : Graph) (visited : List Nat) (cs frontier : List Nat)
     (hcs : ∀ c ∈ cs, g.hasNode c = true) :
-    bfsChildren g depAll visited cs frontier
+    bfsChildren g depAll false visited cs frontier
       = .ok (frontier ++ cs.filter (ready g visited)) := by
   induction cs generalizing frontier with
   | nil => simp [bfsChildren]
@@ -278,7 +278,7 @@ with an empty frontier. -/
 theorem bfsLoop_depAll {g : Graph} (wf : g.WF) (hs : g.Simple) :
     ∀ (fuel : Nat) (frontier acc : List Nat), BfsInv g frontier acc →
       g.size < fuel + acc.length →
-      ∃ out, bfsLoop g depAll fuel frontier acc.reverse acc = (out, none) ∧ BfsInv g [] out := by
+      ∃ out, bfsLoop g depAll false fuel frontier acc.reverse acc = (out, none) ∧ BfsInv g [] out := by
   intro fuel
   induction fuel with
   | zero =>
